@@ -106,7 +106,8 @@ def main():
         # executed first and thrown away.  Module-level caches or state that
         # survive a call make the measured run depend on it.
         import warnings
-        pre = dict(cfg, seed=cfg["seed"] + 7777)
+        # (other seed and, for the schedulers, other bandit settings)
+        pre = dict(cfg, seed=cfg["seed"] + 7777, r_max=0.7, ducb_gamma=0.5, xi=0.3)
         with warnings.catch_warnings():
             warnings.simplefilter("ignore")
             if algo.startswith("sched:"):
@@ -216,9 +217,10 @@ def run_sched(which, cfg):
         else:
             buf = rb.MultiTaskReplayBuffer(rb.ReplayBuffer(500), n_tasks)
             r, steps = active_mt.train_active_mt(
-                ts, train_st, buf, r_max=5.0, total_timesteps=60,
-                scheduling_interval=1, learning_starts=10, seed=seed,
-                progress_bar=False)
+                ts, train_st, buf, r_max=cfg.get("r_max", 5.0),
+                ducb_gamma=cfg.get("ducb_gamma", 0.95), xi=cfg.get("xi", 0.002),
+                total_timesteps=90, scheduling_interval=1, learning_starts=10,
+                seed=seed, progress_bar=False)
             out["result:training_steps"] = [int(x) for x in steps]
     for name, obj in (("policy", st.policy), ("q", st.q), ("policy_target", pt),
                       ("q_target", qt), ("policy_opt", st.policy_optimizer),
